@@ -15,6 +15,11 @@
 EXTENDS Integers, Sequences, FiniteSets, Bags, TLC
 
 CONSTANTS Pieces, Consumers, Prios, MaxOps, Dev
+\* IdleP stands for tor.IdlePriority: a request made with it registers no priority (the entry it creates is "idle"),
+\* but may still ask for a notification.  Idle entries are pruned by DelIdle - on every configuration change and
+\* whenever periodicRequest runs for a higher priority - and pruning wakes their waiters (the channel is closed).
+\* Dev "prune_no_close": the entry is deleted with its channel left open.
+IdleP == 9
 
 VARIABLES complete,   \* set of pieces complete in the store
           prio,       \* [Pieces -> bag of priorities]: the requested table
@@ -53,7 +58,7 @@ ApiSend(k) ==
   /\ pend[k] # NoPend
   /\ last' = [a |-> "ApiSend", k |-> k]
   /\ torQ' = Append(torQ, [e |-> "req", k |-> k, i |-> pend[k].i, p |-> pend[k].p, want |-> pend[k].want])
-  /\ held' = [held EXCEPT ![k] = @ (+) SetToBag({<<pend[k].i, pend[k].p>>})]
+  /\ held' = [held EXCEPT ![k] = IF pend[k].p = IdleP THEN @ ELSE @ (+) SetToBag({<<pend[k].i, pend[k].p>>})]
   /\ pend' = [pend EXCEPT ![k] = NoPend]
   /\ UNCHANGED <<complete, prio, entry, chan, closed, nextch, wait, waitp, pendingHave, nops>>
 
@@ -65,6 +70,12 @@ ApiWithdraw(k, i, p) ==
   /\ held' = [held EXCEPT ![k] = @ (-) SetToBag({<<i, p>>})]
   /\ pend[k] = NoPend
   /\ UNCHANGED <<complete, prio, entry, chan, closed, nextch, wait, waitp, pendingHave, pend>>
+
+\* a configuration change (Torrent.SetConf): the loop will prune the idle entries
+ApiPrune ==
+  /\ Op([a |-> "ApiPrune"])
+  /\ torQ' = Append(torQ, [e |-> "prune", k |-> "-", i |-> 0, p |-> 0, want |-> FALSE])
+  /\ UNCHANGED <<complete, prio, entry, chan, closed, nextch, held, wait, waitp, pendingHave, pend>>
 
 DelEntry(i) == /\ entry' = entry \ {i}
                /\ closed' = IF chan[i] # 0 THEN closed \cup {chan[i]} ELSE closed
@@ -81,7 +92,7 @@ Loop ==
                    mk   == want /\ chan[e.i] = 0
                    ch   == IF mk THEN nextch ELSE chan[e.i]
                IN /\ entry' = entry \cup {e.i}
-                  /\ prio' = [prio EXCEPT ![e.i] = @ (+) SetToBag({e.p})]
+                  /\ prio' = [prio EXCEPT ![e.i] = IF e.p = IdleP THEN @ ELSE @ (+) SetToBag({e.p})]
                   /\ chan' = [chan EXCEPT ![e.i] = IF want THEN ch ELSE @]
                   /\ nextch' = IF mk THEN nextch + 1 ELSE nextch
                   \* the caller gets the channel (nil if the piece is complete)
@@ -94,6 +105,12 @@ Loop ==
                      /\ IF BagCardinality(prio[e.i]) = 1 THEN DelEntry(e.i) ELSE UNCHANGED <<entry, closed, chan>>
                   ELSE UNCHANGED <<prio, entry, closed, chan>>
                /\ UNCHANGED <<nextch, wait, waitp>>
+          [] e.e = "prune" ->
+               LET idle == {i \in entry : prio[i] = EmptyBag} IN
+               /\ entry' = entry \ idle
+               /\ closed' = IF "prune_no_close" \in Dev THEN closed ELSE closed \cup ({chan[i] : i \in idle} \ {0})
+               /\ chan' = [i \in Pieces |-> IF i \in idle THEN 0 ELSE chan[i]]
+               /\ UNCHANGED <<prio, nextch, wait, waitp>>
           [] e.e = "have" ->
                \* Done(): close and clear the channel, prune the entry if idle
                /\ IF e.add /\ e.i \in entry THEN
@@ -122,6 +139,7 @@ Evict(i) ==
   /\ UNCHANGED <<prio, entry, chan, closed, nextch, held, wait, waitp, pendingHave, pend>>
 
 Next == \/ \E k \in Consumers, i \in Pieces, p \in Prios : (\E w \in BOOLEAN : ApiRequest(k, i, p, w)) \/ ApiWithdraw(k, i, p)
+        \/ ApiPrune
         \/ (\E k \in Consumers : ApiSend(k)) \/ Loop \/ \E i \in Pieces : Flip(i) \/ FlipQueue(i) \/ Evict(i)
 Spec == Init /\ [][Next]_vars
 
@@ -135,5 +153,6 @@ HeldCopies(i, p) == LET F[T \in SUBSET Consumers] ==
                          IF T = {} THEN 0 ELSE LET k == CHOOSE k \in T : TRUE IN CopiesIn(<<i, p>>, held[k]) + F[T \ {k}]
                     IN F[Consumers]
 PrioConserved == Drained => \A i \in Pieces : \A p \in Prios : CopiesIn(p, prio[i]) = HeldCopies(i, p)
-EntryIffWanted == Drained => \A i \in Pieces : (i \in entry) <=> (prio[i] # EmptyBag)
+\* (an entry without priorities is an idle one)
+EntryIffWanted == Drained => \A i \in Pieces : (prio[i] # EmptyBag) => (i \in entry)
 =============================================================================
